@@ -654,9 +654,10 @@ def guards_of(fi: FuncInfo, node: ast.AST, stop_at: Optional[ast.AST] = None) ->
     cur = node
     while cur is not fi.node and cur in parents:
         par = parents[cur]
-        if par is stop_at:
-            break
         fld = _field_of(par, cur)
+        if par is stop_at:
+            _early_exits(par, cur, fld, out)
+            break
         if isinstance(par, ast.If):
             if fld == "body":
                 out.append(Guard(par.test, True, "if"))
@@ -684,18 +685,27 @@ def guards_of(fi: FuncInfo, node: ast.AST, stop_at: Optional[ast.AST] = None) ->
                 idx = [i for i, v in enumerate(par.ifs) if v is cur][0]
                 for prev in par.ifs[:idx]:
                     out.append(Guard(prev, True, "comp"))
-        # early exits among preceding siblings in any statement list
-        if isinstance(cur, ast.stmt) and fld in ("body", "orelse", "finalbody", "handlers"):
-            sibs = getattr(par, fld)
-            if isinstance(sibs, list) and cur in sibs:
-                for prev in sibs[: sibs.index(cur)]:
-                    if isinstance(prev, ast.If):
-                        if body_exits(prev.body) and not body_exits(prev.orelse):
-                            out.append(Guard(prev.test, False, "early-exit"))
-                        elif prev.orelse and body_exits(prev.orelse) and not body_exits(prev.body):
-                            out.append(Guard(prev.test, True, "early-exit"))
+        _early_exits(par, cur, fld, out)
         cur = par
     return out
+
+
+def _early_exits(par, cur, fld, out):
+    """early exits among preceding siblings in any statement list"""
+    if isinstance(cur, ast.stmt) and fld in ("body", "orelse", "finalbody", "handlers"):
+        sibs = getattr(par, fld)
+        if isinstance(sibs, list) and cur in sibs:
+            for prev in sibs[: sibs.index(cur)]:
+                if isinstance(prev, ast.If):
+                    if body_exits(prev.body) and not body_exits(prev.orelse):
+                        out.append(Guard(prev.test, False, "early-exit"))
+                    elif prev.orelse and body_exits(prev.orelse) and not body_exits(prev.body):
+                        out.append(Guard(prev.test, True, "early-exit"))
+                elif isinstance(prev, ast.Try):
+                    # an early exit inside a preceding try body: holds unless a handler ran
+                    for st in prev.body:
+                        if isinstance(st, ast.If) and body_exits(st.body) and not body_exits(st.orelse):
+                            out.append(Guard(st.test, False, "early-exit-in-try"))
 
 
 def enclosing(fi: FuncInfo, node: ast.AST, kinds) -> list[ast.AST]:
@@ -815,7 +825,7 @@ def expand(fi: FuncInfo, expr: ast.AST, depth: int = 6, _seen=None) -> ast.AST:
         def visit_Name(self, n):
             if isinstance(n.ctx, ast.Load) and n.id not in _seen and depth > 0 and n.id not in fi.params():
                 ds = local_defs(fi, n.id)
-                if len(ds) == 1 and ds[0][0] is not None:
+                if ds and all(d[0] is not None for d in ds) and len({unparse(d[0]) for d in ds}) == 1:
                     return expand(fi, copy.deepcopy(ds[0][0]), depth - 1, _seen | {n.id})
             return n
 
